@@ -493,6 +493,64 @@ int main(void)
 			}
 			printf("R first=%s,%s reset=%d again=%s,%s | C - | I ret=%d\n", vr_out[0], vr_out[1], vr_ret[4], vr_out[2], vr_out[3], r);
 		}
+		else if (!strcmp(op, "fseq") && drv_nw == 4) {
+			/* c fseq <hex text> <types>: a text file of several words; one mpt_iterator_consume per type letter on ONE file
+			 * iterator (a refused element is asked for again with the next type) */
+			uint8_t *dat; size_t len; int isnull;
+			const char *types = drv_w[3];
+			if (drv_parse_data(drv_w[2], &dat, &len, &isnull) || isnull || !len || strlen(types) > 4 || !*types) { puts("bad-op"); continue; }
+			int bad = 0;
+			for (const char *p = types; *p; ++p) if (!strchr("bynqiuxt", *p)) bad = 1;
+			for (size_t k = 0; k < len; k++) if (!dat[k]) bad = 1;
+			if (bad) { puts("bad-op"); free(dat); continue; }
+			FILE *tf = tmpfile();
+			fwrite(dat, 1, len, tf); fputc('\n', tf); fflush(tf);
+			int fd = dup(fileno(tf));
+			fclose(tf);
+			lseek(fd, 0, SEEK_SET);
+			free(dat);
+			MPT_INTERFACE(metatype) *mt = mpt_iterator_file(fd);
+			MPT_INTERFACE(iterator) *it = 0;
+			if (!mt || MPT_metatype_convert(mt, MPT_ENUM(TypeIteratorPtr), &it) < 0 || !it) { puts("bad-op"); continue; }
+			printf("R");
+			for (const char *p = types; *p; ++p) {
+				char t1[2] = { *p, 0 }, out[48];
+				const struct ty *tgt = ty_of(t1);
+				dst_prepare();
+				int r = mpt_iterator_consume(it, tcode(tgt), dstbuf);
+				if (r < 0) printf(" refused");
+				else { out_text(tgt, out, sizeof(out)); printf(" ok:%s", dst_touched(tgt) ? out : "UNSET"); }
+			}
+			printf(" | C - | I -\n");
+			mt->_vptr->unref(mt);
+		}
+		else if (!strcmp(op, "sconv") && drv_nw == 6) {
+			/* c sconv <hex word> <t1> <t2> <oracle>: one element of a string iterator, value() taken once, asked for type t1
+			 * without destination, then converted to t2 through the same value */
+			uint8_t *dat; size_t len; int isnull;
+			const struct ty *t1 = ty_of(drv_w[3]), *t2 = ty_of(drv_w[4]);
+			if (!t1 || !t2 || t1->code == 'l' || t2->code == 'l' || t2->code == 'c' || drv_parse_data(drv_w[2], &dat, &len, &isnull) || isnull || !len) { puts("bad-op"); continue; }
+			char *str = malloc(len + 1);
+			memcpy(str, dat, len); str[len] = 0; free(dat);
+			int bad = 0;
+			for (size_t k = 0; k < len; k++) if (!str[k] || str[k] == ' ' || (str[k] >= 9 && str[k] <= 13)) bad = 1;
+			MPT_INTERFACE(metatype) *mt = bad ? 0 : mpt_iterator_string(str, 0);
+			MPT_INTERFACE(iterator) *it = 0;
+			if (!mt || MPT_metatype_convert(mt, MPT_ENUM(TypeIteratorPtr), &it) < 0 || !it) { puts("bad-op"); free(str); if (mt) mt->_vptr->unref(mt); continue; }
+			const MPT_STRUCT(value) *val = it->_vptr->value(it);
+			char out[48];
+			errno = ERANGE;
+			int r1 = val ? mpt_value_convert(val, tcode(t1), 0) : -1;
+			dst_prepare();
+			errno = ERANGE;
+			int r2 = val ? mpt_value_convert(val, tcode(t2), dstbuf) : -1;
+			if (r2 >= 0) out_text(t2, out, sizeof(out));
+			printf("R first=%s second=%s", r1 < 0 ? "refused" : "ok", r2 < 0 ? "refused" : "ok:");
+			if (r2 >= 0) printf("%s", dst_spilled(t2) ? "OOB" : out);
+			printf(" | C - | I -\n");
+			mt->_vptr->unref(mt);
+			free(str);
+		}
 		else if (!strcmp(op, "skip") && drv_nw == 4) {
 			/* c skip <src> <v>: mpt_iterator_consume(it, 0, 0) */
 			const struct ty *src = ty_of(drv_w[2]);
